@@ -10,7 +10,8 @@ Built with `ast` only.  A *site* is
   * an order-consuming call on such an expression (`list`, `tuple`, `str.join`, `enumerate`, `next(iter())`,
     `.pop()`, `str()/repr()`/f-string interpolation), or an order-free one (`sorted`, `len`, `any`, `all`, `sum`,
     `min`, `max`, `bool`, `in`) — the latter are not listed individually, only counted;
-  * `id(...)` interpolated into a string (f-string, `str(id(..))`, `%`/`.format`).
+  * `id(...)` interpolated into a string (f-string, `str(id(..))`, `%`/`.format`);
+  * a wall-clock / pid / uuid / random / hash() call (kind `clock`): never classified automatically.
 
 Each site gets a class:
   sorted_wrapped      the iterable is `sorted(<set>)`
@@ -58,6 +59,10 @@ SET_METHODS_RET_SET = {"copy", "union", "intersection", "difference", "symmetric
 ORDER_FREE_CALLS = {"sorted", "len", "any", "all", "sum", "min", "max", "bool", "set", "frozenset", "isinstance"}
 ORDER_CONSUMING_CALLS = {"list", "tuple", "enumerate", "iter", "str", "repr", "zip", "reversed", "map", "filter"}
 LOG_NAMES = {"debug", "info", "warning", "error", "exception", "critical", "log"}
+CLOCK_CALLS = {("time", "time"), ("time", "time_ns"), ("time", "monotonic"), ("time", "perf_counter"), ("time", "strftime"),
+               ("time", "localtime"), ("time", "gmtime"), ("time", "ctime"),
+               ("datetime", "now"), ("datetime", "utcnow"), ("datetime", "today"), ("date", "today"),
+               ("uuid", "uuid1"), ("uuid", "uuid4"), ("os", "getpid"), ("os", "urandom"), ("os", "times")}
 
 
 def _name_of(node: ast.AST) -> str | None:
@@ -112,7 +117,7 @@ class Site:
     file: str
     line: int
     func: str
-    kind: str       # for | comp | call:<name> | fstring | id_in_string
+    kind: str       # for | comp | call:<name> | fstring | id_in_string | clock
     text: str       # source text of the iterable / expression
     cls: str = ""   # sorted_wrapped | order_irrelevant | order_relevant | dead_value
     why: str = ""
@@ -139,6 +144,16 @@ REVIEWED: dict[tuple[str, str, str, str], tuple[str, str, str]] = {
         ("order_relevant", "typing_imports_render",
          "each word of the type string is turned into add_import(module, name): the ImportCollector's dict gets its "
          "module keys in set order; harmless only because every renderer sorts modules and names (proved)"),
+    ("generator/client_generator.py", "__init__", "clock", "time.time()"):
+        ("order_irrelevant", "", "start time of the run: only used for elapsed-time figures in progress messages"),
+    ("generator/client_generator.py", "_log_progress", "clock", "time.time()"):
+        ("order_irrelevant", "", "elapsed / stage timing, formatted into the progress message (logger.info / print), never a file"),
+    ("generator/client_generator.py", "_log_progress", "clock", "datetime.now()"):
+        ("order_irrelevant", "", "timestamp prefix of the progress message (logger.info / print), never a file"),
+    ("generator/client_generator.py", "generate", "clock", "time.time()"):
+        ("order_irrelevant", "", "total time and per-stage summary in progress messages only"),
+    ("core/telemetry.py", "track_event", "clock", "time.time()"):
+        ("order_irrelevant", "", "opt-in telemetry event record (printed to stdout when enabled); not part of any generated file"),
     ("emitters/models_emitter.py", "emit", "for", "set(all_schema_keys_to_emit) - processed_schema_original_keys"):
         ("order_irrelevant", "", "stall fallback: logs and adds every remaining key to a set; nothing is emitted here"),
 }
@@ -378,6 +393,13 @@ class Scanner(ast.NodeVisitor):
                 self.add(node, "call:join", node.args[0])
             if f.attr == "pop" and not node.args and self.shape(f.value) == "S":
                 self.add(node, "call:pop", f.value)
+        # wall clock / process identity / randomness: never automatically classified
+        if isinstance(f, ast.Attribute) and isinstance(f.value, ast.Name) and (f.value.id, f.attr) in CLOCK_CALLS:
+            self.add(node, "clock", node)
+        if isinstance(f, ast.Attribute) and isinstance(f.value, ast.Name) and f.value.id in ("random", "secrets"):
+            self.add(node, "clock", node)
+        if isinstance(f, ast.Name) and f.id in ("hash", "uuid4", "uuid1", "getpid", "urandom"):
+            self.add(node, "clock", node)
         # id(...) used in a string
         if isinstance(f, ast.Name) and f.id == "id" and len(node.args) == 1:
             if self.in_string_context(node):
